@@ -99,6 +99,18 @@ impl<'value, T: 'value> Stream<T> {
 
 impl<'value, T: 'value + Clone + fmt::Display> Stream<T> {
     pub(crate) fn add_value(&mut self, value: T, generation: Generation) -> ExecutionResult<()> {
+        use crate::execution_step::ExecutionError;
+        use crate::UncatchableError;
+
+        // generations are numbered densely and none of them is empty, so a stream that respects
+        // the size limit can't contain a generation with such an index; it comes from data and
+        // is used as a size to allocate
+        if let Generation::Previous(generation_idx) | Generation::Current(generation_idx) = generation {
+            if generation_idx >= STREAM_MAX_SIZE {
+                return Err(ExecutionError::Uncatchable(UncatchableError::StreamSizeLimitExceeded));
+            }
+        }
+
         match generation {
             Generation::Previous(previous_gen) => self.previous_values.add_value_to_generation(value, previous_gen),
             Generation::Current(current_gen) => self.current_values.add_value_to_generation(value, current_gen),
